@@ -383,6 +383,8 @@ impl DOPRI5 {
                         nonstiff = 0;
                         iasti += 1;
                         if iasti == 15 {
+                            // the step is abandoned: it was never applied nor reported
+                            steps.accepted -= 1;
                             status = Status::ProbablyStiff;
                             break;
                         }
